@@ -161,7 +161,7 @@ def run(ctx, rep):
                    "closed socket in the table for the life of the server" % A.norm(cn.ast), ctx.loc(cn),
                    witness=ctx.path((p1 or []) + (p2 or [])[1:]) if not ok else None)
     K.share(ctx, rep, "c16", lambda o: o.rule == "R16.4" and "shut down and untracked" in o.key, "R17.2", floor=1)
-    K.share(ctx, rep, "c16", lambda o: o.rule == "R16.2" and "_drop_connection" in o.key, "R17.2", floor=1)
+    K.share(ctx, rep, "c16", lambda o: o.rule == "R16.2" and ("_drop_connection" in o.key or "no longer polled" in o.key), "R17.2", floor=2)
     K.share(ctx, rep, "c11", lambda o: o.rule == "R11.3" and ("serve_all" in o.key or "serve_threaded" in o.key), "R17.2", floor=2)
     K.share(ctx, rep, "c05", lambda o: o.rule == "R05.3" and ".close:" in o.key, "R17.2", floor=3)
     fdc = ctx.func(SRV + ".ThreadPoolServer._drop_connection")
@@ -309,3 +309,35 @@ def run(ctx, rep):
     at = cnt.get(go.exit.id, frozenset())
     rep.ob("R17.4", "OneShotServer: serves exactly one connection per accept", at == frozenset([1]),
            "one serve call on every normal path" if at == frozenset([1]) else "serve counts %s" % sorted(at), fo.loc)
+    _accept_rechecks_state(ctx, rep)
+
+
+def _accept_rechecks_state(ctx, rep):
+    """R17.6: a socket obtained from listener.accept() is tracked and served only after the server's state has been looked at
+    again: close() from another thread may have swept self.clients while accept() was blocked; a socket registered after that
+    sweep is served (or parked) by a server that reports closed, its client never sees end-of-stream."""
+    rep.rule("R17.6", "Server.accept re-examines `active` between obtaining a socket and tracking/serving it")
+    f = ctx.func(SRV + ".Server.accept")
+    g = ctx.cfg(f)
+    rep.analysed(f, g)
+    acc = [n for n in g.live if n.ast is not None and n.kind == "stmt" and A.find_calls(n.ast, "self.listener.accept")]
+    sinks = [n for n in g.live if n.ast is not None and n.kind == "stmt" and (
+        A.find_calls(n.ast, "self.clients.add") or A.find_calls(n.ast, "self._accept_method"))]
+    tests = {n.id for n in g.live if n.ast is not None and n.kind == "test" and any(
+        K.self_attr(x, "active") or K.self_attr(x, "_closed") for x in A.walk(n.ast))}
+    rep.floor("R17.6", "listener.accept() sites in Server.accept", len(acc), 1)
+    rep.floor("R17.6", "tracking / hand-off sites in Server.accept", len(sinks), 2)
+    wit = None
+    for a in acc:
+        for t, l in a.succ:
+            if l == "exc":
+                continue
+            p = Q.find_path_ef([t], lambda x: x in sinks, lambda u, v, l2: l2 != "exc" and v.id not in tests, skip_first=False)
+            if p is not None and t.id not in tests:
+                wit = [a] + p
+    rep.ob("R17.6", "Server.accept: `active` is tested on every path from a successful accept() to tracking / serving the socket",
+           bool(acc) and bool(sinks) and wit is None,
+           "every such path passes a test of self.active" if wit is None else
+           "a socket accepted while close() was sweeping the client set is added to self.clients and handed to _accept_method "
+           "without looking at self.active again: the client of a closed server keeps being served and never sees end-of-stream",
+           f.loc, witness=ctx.path(wit) if wit else None)
